@@ -289,8 +289,27 @@ func runLatencyStats(c *Ctx) {
 	// ---------------------------------------------------------------- update
 	{
 		c.Analysed(fnName(update))
+		// an export is any call - by name or through a function value chosen by the caller - that is handed the
+		// Metadata sink of update
+		var metaP ssa.Value
+		for _, pp := range update.Params {
+			if nt, ok := pp.Type().(*types.Named); ok && nt.Obj().Name() == "Metadata" {
+				metaP = pp
+			}
+		}
+		isExport := func(ev *Ev) bool {
+			if !strings.HasPrefix(ev.Label, "call:") || ev.Label == "call:(*latency.window).add" || metaP == nil {
+				return false
+			}
+			for _, a := range ev.Args {
+				if a.V == metaP {
+					return true
+				}
+			}
+			return false
+		}
 		watch := func(ev *Ev) bool {
-			return ev.Label == "fact" || ev.Label == "call:(*latency.window).add" || ev.Label == "call:(*latency.window).updateMeta" || strings.HasPrefix(ev.Label, "load:latency.Latency.")
+			return ev.Label == "fact" || ev.Label == "call:(*latency.window).add" || isExport(ev) || strings.HasPrefix(ev.Label, "load:latency.Latency.")
 		}
 		n := 0
 		for _, empty := range []bool{false, true} {
@@ -323,16 +342,22 @@ func runLatencyStats(c *Ctx) {
 				}
 				n++
 				adds := p.Count(lbl("call:(*latency.window).add"))
-				exports := p.Count(lbl("call:(*latency.window).updateMeta"))
+				exports := p.Count(isExport)
 				starts := factsOf(p, "latency.Latency.start")
 				c.Check(len(starts) >= 1 && starts[len(starts)-1] == "NOW", "C15.lat-slot", fnName(update), "batch start becomes this update's time", P.Pos(update.Pos()), fmt.Sprint(starts))
 				c.Check(exports == 2, "C15.lat-slot", fnName(update), "every window exports (two windows)", P.Pos(update.Pos()), fmt.Sprintf("%d exports", exports))
 				// every export gets the update's own time
 				for j := range p.Trace {
 					ev := &p.Trace[j]
-					if ev.Label == "call:(*latency.window).updateMeta" && len(ev.Args) >= 3 {
+					if isExport(ev) {
 						st := newState()
-						c.Check(latShape(e, st, ev.Args[2], 0) == "NOW", "C15.lat-slot", fnName(update), "windows export with this update's time", P.Pos(update.Pos()), latShape(e, st, ev.Args[2], 0))
+						now := false
+						for _, a := range ev.Args {
+							if latShape(e, st, a, 0) == "NOW" {
+								now = true
+							}
+						}
+						c.Check(now, "C15.lat-slot", fnName(update), "windows export with this update's time", P.Pos(update.Pos()), ev.Label)
 					}
 				}
 				if empty {
